@@ -38,8 +38,8 @@ CHECKS = {
     text="Stateless model checking over a family of directory populations: every set of <=3 (thorough 4) entries from a 13-name alphabet (own rotated files, name.wf.<ts>, name.audit.<ts>, name.bak, name.1.gz, 13/15-digit and non-digit suffixes, bare name, foreign file, look-alike directory) x 4 ages around the cut-off x max ages 1/24/168/720 h, for the appender and its .wf sibling; the cleanup is triggered by a real rotation on the in-memory filesystem and its goroutine is interleaved with a further write (P<=1). Oracle: exact survivor set.",
     note=SCHED_NOTE, technique="explicit enumeration of directory states + stateless model checking of the cleanup goroutine (controlled scheduler)", design="DESIGN.md section 3 C14"),
  "C20": dict(
-    text="Crash-point enumeration: every scheduling point of every schedule (P<=1, thorough 2) of 1-2 threads x 2-3 log calls through a synchronous logger onto File / RollingFile / console stream (backed by an in-memory file) x both layouts is tried as the point where the process dies (no deferred code, no Stop); every acknowledged line must be in the target, whole, and the target holds only whole lines.",
-    note=SCHED_NOTE + " Process death only (what completed write calls left in the file), not power loss.", technique="stateless model checking with exhaustive crash-point injection", design="DESIGN.md section 3 C20"),
+    text="Crash-point enumeration: every scheduling point of every schedule (P<=1, thorough 2) of 1-2 threads x 2-3 log calls through a synchronous logger onto File / RollingFile / console stream (backed by an in-memory file) x both layouts is tried as the point where the process dies (no deferred code, no Stop); every acknowledged line must be in the target, whole, and the target holds only whole lines. Model<->OS: 30 uninstrumented child processes on real files (3 appender kinds x 2 layouts) are SIGKILLed after exactly k = 0..4 acknowledged calls and checked with the same oracle; the vfs call logs of three scenarios are replayed on the real filesystem.",
+    note=SCHED_NOTE + " Process death only (what completed write calls left in the file), not power loss.", engine="zzvrt+enum", technique="stateless model checking with exhaustive crash-point injection", design="DESIGN.md section 3 C20"),
  "C01": dict(
     text="Bounded-exhaustive enumeration through the public Refresh/Record API against a level-range reference model: the range language (all 'A', 'A~B' over 11 names in three cases + unknown names, Enable on 17 codes); every sequence of 1-3 (thorough 4) appender references over 31 level shapes x 6 logger ranges x 11 event levels with exact delivery counts; 15 entry points x ranges cutting below/at/above their level; async/layout kinds; plus the logger-kinds family (Console, File, RollingFile with/without separate .wf and async) on the in-memory filesystem under the scheduler.",
     note="Trusted: the reference model in harness/enum/c01.go; explicit '~MAX' upper bounds, one appender referenced twice and ranges with inner blanks are excluded as ambiguous. " + SCHED_NOTE,
